@@ -52,6 +52,13 @@ func (f *Fosite) NewPushedAuthorizeRequest(ctx context.Context, r *http.Request)
 	}
 	request.Client = client
 
+	// A "client_id" in the request body must name the client that authenticated (as the device authorization endpoint
+	// requires too): the request is validated and stored for the client found under that id, so a mismatch would let one
+	// client push a request in the name of another.
+	if id := r.Form.Get("client_id"); id != "" && client.GetID() != "" && id != client.GetID() {
+		return request, errorsx.WithStack(ErrInvalidRequest.WithHint("Provided client_id mismatch."))
+	}
+
 	// Reject the request if the "request_uri" authorization request
 	// parameter is provided.
 	if r.Form.Get("request_uri") != "" {
